@@ -7,7 +7,8 @@ import Verif.Model.Tokenizer
 
 namespace Verif
 
-/-- AbstractTokenizer.SetReader (+ the mode reset of MustacheTokenizer on a new reader):
+/-- AbstractTokenizer.SetReader (+ the mode reset of MustacheTokenizer on every SetReader, recognised by the input counter
+`ReaderVersion`, also when the same scanner object is assigned again: D34):
     every mutable field is reset; nothing of the previous state survives -/
 def TState.setReader (_old : TState) (content : List Rune) : TState := TState.start content
 
